@@ -70,6 +70,11 @@ class IClass:
         self.is_dataclass = any("dataclass" in norm(d) for d in node.decorator_list)
         self.dc_init = not any("init=False" in norm(d).replace(" ", "") for d in node.decorator_list)
         self.bases: list[IClass] = []
+        # class-level state: `name = value` statements of the class body (evaluated on first use), values assigned to the class
+        # later (`cls.name = ..`, also by a base's __init_subclass__)
+        self.class_attr_nodes: dict[str, ast.AST] = {}
+        self.class_attrs: dict = {}
+        self._subclass_hook_done = False
 
     def mro(self):
         out = [self]
@@ -335,6 +340,12 @@ class Interp(Folder):
                 c.methods[st.name] = Func(st, env, self, name=f"{node.name}.{st.name}", owner=c)
             elif isinstance(st, ast.ClassDef):
                 c.nested[st.name] = self.make_class(st, env)
+            elif isinstance(st, ast.Assign) and len(st.targets) == 1 and isinstance(st.targets[0], ast.Name):
+                c.class_attr_nodes[st.targets[0].id] = st.value
+        if not c.is_dataclass:
+            for st in node.body:
+                if isinstance(st, ast.AnnAssign) and isinstance(st.target, ast.Name) and st.value is not None:
+                    c.class_attr_nodes[st.target.id] = st.value
         # single / multiple inheritance from classes of the interpreted program (resolved by name): methods and fields that
         # the class does not define itself come from its bases
         for b in node.bases:
@@ -355,6 +366,38 @@ class Interp(Folder):
                     c.fields = [(n, d) for n, d in base.fields if n not in own] + c.fields
                     c.is_dataclass = True
         return c
+
+    # ---- class-level attributes ------------------------------------------------------------------------------
+    def _run_subclass_hook(self, c: IClass):
+        """`__init_subclass__` of the nearest base that defines one, run once when the class's own attributes are first needed"""
+        if c._subclass_hook_done:
+            return
+        c._subclass_hook_done = True
+        for b in c.mro()[1:]:
+            hook = next((st for st in (b.node.body if b.node is not None else []) if isinstance(st, ast.FunctionDef) and st.name == "__init_subclass__"), None)
+            if hook is not None:
+                self.call(Func(hook, b.env, b.interp, c, f"{b.name}.__init_subclass__", b), [], {}, hook, None)
+                return
+
+    def class_attr(self, c: IClass, name):
+        """value of a class-level attribute through the MRO (KeyError when there is none)"""
+        for k in c.mro():
+            self._run_subclass_hook(k)
+            if name in k.class_attrs:
+                return k.class_attrs[name]
+            if name in k.class_attr_nodes:
+                v = self.ev(k.class_attr_nodes[name], ChainMap(dict(k.nested), k.env))
+                k.class_attrs[name] = v
+                return v
+        raise KeyError(name)
+
+    @staticmethod
+    def _method_kind(f):
+        for d in getattr(f.node, "decorator_list", []):
+            t = norm(d)
+            if t in ("classmethod", "staticmethod"):
+                return t
+        return "plain"
 
     def instantiate(self, c: IClass, args, kwargs, node):
         o = Obj(c)
@@ -470,15 +513,29 @@ class Interp(Folder):
                 return ("type-of", v)
             if a in v.cls.methods:
                 return v.cls.methods[a].bind(v)
+            if isinstance(v.cls, IClass):
+                try:
+                    return self.class_attr(v.cls, a)
+                except KeyError:
+                    pass
             raise PyRaise("AttributeError", f"{v.cls.name}.{a}", e)
         if isinstance(v, IClass):
             if a in ("__name__", "__qualname__"):
                 return v.name
+            if a == "__bases__":
+                return tuple(v.bases)
+            if a == "__mro__":
+                return tuple(v.mro())
             if a in v.nested:
                 return v.nested[a]
             if a in v.methods:
-                return v.methods[a]
-            self.err(e, "class attribute")
+                m_ = v.methods[a]
+                # a classmethod looked up on the class is bound to the class it was looked up on
+                return m_.bind(v) if self._method_kind(m_) == "classmethod" else m_
+            try:
+                return self.class_attr(v, a)
+            except KeyError:
+                self.err(e, "class attribute")
         if a == "__class__" and not isinstance(v, (Obj, IClass, _ModuleNS)):
             return ("type-of", v)
         if isinstance(v, tuple) and v[:1] == ("type-of",) and a in ("__name__", "__qualname__"):
@@ -936,6 +993,9 @@ class Interp(Folder):
             o = self.ev(target.value, env)
             if isinstance(o, Obj):
                 o.attrs[target.attr] = value
+                return
+            if isinstance(o, IClass):
+                o.class_attrs[target.attr] = value
                 return
             if isinstance(o, (ExcVal, Term, SymNS)):
                 return  # decorating a third-party object (`lf.name = ...`) has no effect on the term it denotes
